@@ -101,8 +101,13 @@ func VerifC36Lookup() {
 			delete(present, id)
 		case 2:
 			v := rt.Choose("idle", 2) == 1
+			// the idle notification may carry the error of a resolver that was cancelled
+			var errs []error
+			if v && rt.Choose("idleWithCanceledResolver", 2) == 1 {
+				errs = []error{context.Canceled}
+			}
 			if b.inst.idleCb != nil {
-				b.inst.idleCb(v, nil)
+				b.inst.idleCb(v, errs)
 			}
 			if v != idle {
 				idle = v
@@ -152,5 +157,25 @@ func VerifC36ComponentID() {
 	back := &LookupRpcServiceRequest{}
 	err = back.UnmarshalComponentID(id)
 	rt.Assert("component id round trip", err == nil && back.GetServiceId() == req.GetServiceId() && back.GetServerId() == req.GetServerId())
+	rt.Reach("end")
+}
+
+// VerifC36ComponentIDPair: two requests encoded in the same process (the second may be encoded after
+// the first, as a proxy does for every call) both round-trip: encoding keeps no state that confuses
+// requests whose ids share characters such as '/'.
+func VerifC36ComponentIDPair() {
+	ids := []string{"a", "b/c", "a/b", "c"}
+	alphabet := func(tag string) string { return ids[rt.Choose(tag, len(ids))] }
+	r1 := &LookupRpcServiceRequest{ServiceId: alphabet("service1"), ServerId: alphabet("server1")}
+	r2 := &LookupRpcServiceRequest{ServiceId: alphabet("service2"), ServerId: alphabet("server2")}
+	id1, err := r1.MarshalComponentID()
+	rt.Assert("marshal first", err == nil)
+	id2, err := r2.MarshalComponentID()
+	rt.Assert("marshal second", err == nil)
+	b1, b2 := &LookupRpcServiceRequest{}, &LookupRpcServiceRequest{}
+	rt.Assert("first decodes", b1.UnmarshalComponentID(id1) == nil)
+	rt.Assert("second decodes", b2.UnmarshalComponentID(id2) == nil)
+	rt.Assert("the first request round-trips", b1.GetServiceId() == r1.GetServiceId() && b1.GetServerId() == r1.GetServerId())
+	rt.Assert("the second request round-trips although another one was encoded before it", b2.GetServiceId() == r2.GetServiceId() && b2.GetServerId() == r2.GetServerId())
 	rt.Reach("end")
 }
